@@ -861,3 +861,48 @@ def msan(tier, seed, info):
 # the stream can never reach.  Hypothesis sub-check on the gcc ASan build (vlib/peerfuzz.py, props/c06x/peerfuzz.py).
 from props.c06x import peerfuzz as _peerfuzz
 _peerfuzz.register(P)
+
+
+# ---------------------------------------------------------------------------
+# The record reader itself.  tls_record_recv(record, &recordlen, sock) is what every endpoint (and every direct caller) reads records with,
+# into a buffer of TLS_MAX_RECORD_SIZE bytes; here the buffer is an exactly-sized ASan heap block and the peer's header announces a generated
+# length - biased to the limits 16384 / 18432 (+5) - with all, or fewer, payload bytes following.
+from hypothesis import strategies as _st
+
+_LEN = _st.one_of(_st.sampled_from([0, 1, 2, 16384, 16385, 18431, 18432, 18433, 18434, 18435, 18436, 18437, 18438, 18439, 18442, 20000, 32768, 65535]),
+                  _st.integers(18420, 18450), _st.integers(0, 65535))
+recio_case = _st.fixed_dictionaries({"type": _st.sampled_from([20, 21, 22, 23, 23, 22, 24, 0, 255]), "ver": _st.sampled_from(["0101", "0303", "0303", "0301", "0302", "0304", "0300", "1234"]),
+                                     "len": _LEN, "short": _st.sampled_from([0, 0, 0, 1, 5, 100]), "fill": _st.integers(0, 255), "bufsize": _st.sampled_from([18437, 18437, 18437, 18500])})
+
+
+@P.sub("record_recv", recio_case, quick=1500, thorough=60000, variants=("asan",))
+def record_recv(case, ctx):
+    """tls_record_recv into an exactly-sized heap buffer: announced lengths around the record-size limits, complete or cut short"""
+    import socket, ctypes
+    from vlib.ffi import lib, Buf
+    l = lib(ctx.variant)
+    n = case["len"]
+    hdr = bytes([case["type"]]) + bytes.fromhex(case["ver"]) + n.to_bytes(2, "big")
+    sent = max(0, n - case["short"])
+    payload = bytes([(case["fill"] + i) & 0xFF for i in range(min(sent, 64))]) + bytes([case["fill"]]) * max(0, sent - 64)
+    a, b = socket.socketpair()
+    try:
+        b.setsockopt(socket.SOL_SOCKET, socket.SO_SNDBUF, 1 << 20)
+        b.sendall(hdr + payload)
+        b.shutdown(socket.SHUT_WR)
+        buf = Buf(case["bufsize"], fill=0xA5)
+        rl = ctypes.c_size_t(0)
+        r = l.tls_record_recv(buf, ctypes.byref(rl), a.fileno())
+    finally:
+        a.close(); b.close()
+    limit = 18437
+    ctx.case(nontrivial=n >= 16384, classes=["len<=16384" if n <= 16384 else "len<=18432" if n <= 18432 else "len<=18437" if n <= 18437 else "len>18437",
+                                            "complete" if sent == n else "cut-short", "ret=%d" % (1 if r == 1 else 0 if r == 0 else -1)], ident=case, sample=case)
+    what = "tls_record_recv of a record announcing %d bytes (type %d, version %s, %d sent)" % (n, case["type"], case["ver"], sent)
+    if r == 1:
+        ctx.check(rl.value == 5 + n and rl.value <= limit, "%s returns 1 with recordlen %d (TLS_MAX_RECORD_SIZE is %d)" % (what, rl.value, limit), "record_recv/length")
+        ctx.check(sent == n, "%s returns 1 although the payload was cut short" % what, "record_recv/short-accepted")
+        ctx.check(buf.raw(min(rl.value, case["bufsize"])) == (hdr + payload)[:rl.value], "%s delivers other bytes than those sent" % what, "record_recv/content")
+    if case["bufsize"] > limit:
+        ctx.check(buf.raw(case["bufsize"] - limit, limit) == b"\xA5" * (case["bufsize"] - limit), "%s wrote past TLS_MAX_RECORD_SIZE bytes of the buffer" % what,
+                  "record_recv/overrun")
